@@ -111,6 +111,14 @@ def gen_modular(rng, kind):
         if lang.depth(f) >= 2 and (kind != 'dt_on_pastified' or lang.horizon(f) <= 8):
             break
     top, defs = lang.decompose(rng, f, rng.randint(1, 4))
+    if len(defs) >= 1 and rng.random() < 0.08:
+        # the output assertion merely names an earlier sub-specification, with another assertion in between
+        # (`sa = ...; sb = ...; out = sa`): the whole former top formula becomes one more definition
+        defs = defs + [('sz', top)]
+        other = lang.N('geq', lang.V(lang.variables(f)[0] if lang.variables(f) else 'x'), lang.C(1.0))
+        defs = defs + [('sy', other)]
+        top = lang.V('sz')
+        return f, top, defs, []
     top, consts = lang.lift_constants(rng, top, 0.4)
     return f, top, defs, consts
 
